@@ -307,9 +307,22 @@ void vh_run_case(Ctx &ctx)
         int nd = rng.range(0, 2);
         for (int i = 0; i < nd && i < static_cast<int>(depCands.size()); ++i) {
             int dq = depCands[static_cast<size_t>(i)];
+            // the dependency may be named through ANY variable of its equivalence class (a connected copy in another
+            // component), not only through the one the analyser ends up calling primary
             VariablePtr dp = base[dq].primary;
-            auto dc = model1->component(std::dynamic_pointer_cast<Component>(dp->parent())->name(), true);
-            auto dv = dc != nullptr ? dc->variable(dp->name()) : nullptr;
+            std::string depComp = std::dynamic_pointer_cast<Component>(dp->parent())->name();
+            std::string depVar = dp->name();
+            const auto &insts = m.q[static_cast<size_t>(dq)].inst;
+            if (insts.size() > 1 && rng.chance(0.6)) {
+                const auto &in = insts[rng.below(insts.size())];
+                depComp = "comp" + std::to_string(in.comp);
+                depVar = in.name;
+                if (depComp != std::dynamic_pointer_cast<Component>(dp->parent())->name()) {
+                    stat("dependencies_named_through_a_copy");
+                }
+            }
+            auto dc = model1->component(depComp, true);
+            auto dv = dc != nullptr ? dc->variable(depVar) : nullptr;
             if (dv != nullptr && ev->addDependency(dv)) {
                 je.deps[qi].push_back(dq);
                 seen("dependency_kind", qkindName(m.q[static_cast<size_t>(dq)].kind));
